@@ -88,8 +88,50 @@ Second round (changes 3-5 of each property; the sub-agents were told the titles 
 | C19-4 | silent | the native held in a struct field and called with a spread slice through a local; every call's received arguments are judged, not only the last |
 | C19-5 | C19 silent (C01/C07 reported it) | typed multi-variable declaration initialised from a multi-result native |
 
-While these inputs were added, the strengthened checks met eight more genuine defects of the pinned tree
-(F44-F50 and K05, K06 in known_findings.json), among them two the C03 sub-agent had noticed on the
+Third round (changes 6-8; the sub-agents were told the titles of the first five and were asked to hide their
+changes in interactions with other language features and APIs):
+
+| change | first result | what was added |
+|---|---|---|
+| C01-7 | silent (C10 reports it) | generator: delete followed by an insert of the same key |
+| C02-6, C02-7, C02-8 | silent | snippets: a function-typed variable reassigned between two executions of one call site; spread calls through methods of locals; chains of constant additions on float64 and on locals |
+| C04-6 | C04 silent (C01, C07 reported it) | variables declared from untyped constants right after a sibling call whose frame held values of other types |
+| C04-7 | silent | chains of constant operands (a + 1 + 1, a + 1 - 1, ...) for every type |
+| C04-8 | C04 silent (C01 reported it) | typed-constant stores and appends through re-sliced slices |
+| C05-7 | C05 silent (C01, C02 reported it) | unary operators on parenthesised groups, the whole expression included |
+| C05-8 | silent | expressions continued on the next line after a binary operator |
+| C06-6 | silent | nested range loops that start on one source line |
+| C06-7 | C06 silent (C01 reported it) | variables of an if-init statement read in the else-if condition and the else branch |
+| C07-7 | silent | host functions that leave more values than they declare |
+| C07-8 | silent | copy(...) as the operand of return |
+| C08-7 | C08 silent (C01, C02 reported it) | function literals (with parameters named like outer names) inside the scope trees |
+| C08-8 | C08 silent (C01 reported it) | parallel assignment whose targets resolve to a local and a global |
+| C09-6 | silent | histories that define a function again with another parameter list, called from script and host |
+| C09-8 | silent | callees that write to the elements of a spread slice |
+| C10-6 | silent | reads of a nil map through literal and variable keys |
+| C10-7 | silent | element type any with stored nils |
+| C10-8 | silent | a range whose value variable has the name of the ranged map |
+| C11-8 | silent | the slice a variadic function received and returned, kept across later calls |
+| C12-6, C12-8 | silent | host-side instances: NewStruct without data, SetAttr/GetAttr, methods fetched by name |
+| C12-7 | C12 silent (C01 reported it) | a local named like the import whose fields collide with package members |
+| C13-6 | silent | carriage returns inside raw string literals |
+| C13-7 | silent | []byte(literal) evaluated repeatedly with writes in between |
+| C14-6 | silent | maps that are single-entry because the other entries were deleted (host, script, nested) |
+| C14-7 | silent | struct references built by the host with NewStruct |
+| C15-8 | silent | blank imports |
+| C16-6 | silent | a function with a local type named like a package type, and package-level blocks using the package type |
+| C16-7 | silent | every third layout variant is loaded as an imported package |
+| C16-8 | silent | two like-shaped functions with literal-local types at the head of two files with identical headers |
+| C17-6 | silent | a version loaded by a host function while a script function is running; every version brings 130 literals of its own |
+| C17-7 | silent | an imported package whose source never changes (initialised variable starts over, the other is kept) |
+| C18-7 | silent | init functions between statements |
+| C18-8 | silent | a function with a local type named like a global type, then package-level blocks using the global one |
+| C19-6, C19-7, C19-8 | silent | names whose meaning changes between host calls (redefinition with another variadic-ness, Set again, function variable reassigned); methods fetched with GetAttr and called through Func |
+| C20-7 | silent | files that begin with blank lines and comments |
+| C20-8 | silent | a second package whose import path differs from its name |
+
+While these inputs were added, the strengthened checks met more genuine defects of the pinned tree
+(F44-F51 and K05, K06 in known_findings.json), among them two the C03 sub-agent had noticed on the
 unchanged tree while looking for places to plant its changes.
 """)
 print(open('/verif/seeded/RESULTS.md').read())
